@@ -465,7 +465,7 @@ namespace nmtools::array
         }
 
         template <typename output_t>
-        constexpr auto operator()(output_t& output) const
+        constexpr auto eval_simd(output_t& output) const
         {
             if constexpr (meta::is_reduction_v<view_type>) {
                 return this->eval_reduction(output);
@@ -482,6 +482,45 @@ namespace nmtools::array
                     return false;
                 }
             }
+        } // eval_simd
+
+        // the simd loops address the operands' and the output's buffers in row-major order
+        template <typename T>
+        static constexpr auto is_row_major_buffer()
+        {
+            using type = meta::remove_cvref_pointer_t<T>;
+            if constexpr (meta::is_tuple_v<type>) {
+                constexpr auto N = meta::len_v<type>;
+                return meta::template_reduce<N>([](auto init, auto index){
+                    constexpr auto I = decltype(index)::value;
+                    return init && is_row_major_buffer<meta::at_t<type,I>>();
+                }, true);
+            } else if constexpr (meta::is_num_v<type>) {
+                return true;
+            } else {
+                constexpr auto axis = meta::contiguous_axis_v<type>;
+                if constexpr (meta::is_fail_v<decltype(axis)>) {
+                    return false;
+                } else {
+                    return axis == -1;
+                }
+            }
+        }
+
+        template <typename output_t>
+        constexpr auto operator()(output_t& output) const
+        {
+            using arrays_t = decltype(get_array(view));
+            auto evaluated = false;
+            if constexpr (is_row_major_buffer<arrays_t>() && is_row_major_buffer<output_t>()) {
+                evaluated = this->eval_simd(output);
+            }
+            if (!evaluated) {
+                // unsupported layout / shapes: use the default evaluator instead of leaving the output untouched
+                auto scalar_evaluator = evaluator_t<view_t,none_t,resolver_t>{view,None};
+                scalar_evaluator(output);
+            }
+            return true;
         } // operator()
 
         // TODO: provide common base/utility
